@@ -57,7 +57,9 @@ CLAIMS = {
              "runnable document families is replayed on the reloaded machine; its trace must be accepted by TraceCore.tla and be "
              "identical to the original machine's trace. (3) Rfsm.tla specifies the wire format of unsigned integers and strings; "
              "TLC checks Dec(Enc(x)) = x on boundary and irregular nibble patterns of every width and emits the vectors, which "
-             "(plus random 64-bit values) must survive write_uint/read_uint and write_str/read_string.",
+             "(plus random 64-bit values) must survive write_uint/read_uint and write_str/read_string; data values of all ten variants "
+             "(nested arrays / maps, extreme integers and doubles, sources with ids) are enumerated with EncData/DecData (DataRoundTrip) "
+             "and must survive write_data/read_data with the specified tag.",
         note="Trusted: model dump/canonicalisation; generated document families. Known finding: strings >= 4096 bytes."),
     "C06": dict(
         category="model_checking", design_ref="4/C06",
@@ -130,7 +132,8 @@ CLAIMS = {
              "session / missing parent / unknown invokeid, illegal delays, failing <cancel>/<assign>/<log>/<script>/<if>/<foreach>, "
              "a failing transition condition, failing <data> and <donedata>, twelve failing forms of <invoke> (type, src, content, "
              "params, unparsable or unsupported child documents), an unknown datamodel name, and reserved event names sent by "
-             "the host; each odd event is followed by a probe event, in several orders, for rfsm-expression and ecmascript. "
+             "the host; each odd event is followed by a probe event, in several orders, for rfsm-expression and ecmascript; a "
+             "two-session scenario sends to a session that has finished (unreachable: error.communication). "
              "TraceC12.tla accepts a run only if the session thread did not panic, every probe was answered, the error event "
              "the Recommendation assigns (Outcome table) appeared on the internal queue, all events were processed and the final "
              "cancel ended the session.",
@@ -140,7 +143,7 @@ CLAIMS = {
         technique="TLC model checking of Queue.tla (producers / consumer with atomic append) + trace validation of recorded multi-producer runs (TraceC13.tla)",
         text="Queue.tla (N producers appending atomically, one consumer completing each macrostep before the next dequeue) is "
              "model-checked exhaustively for 3 producers x 2 events: PerSenderOrder, NoLossNoDup, NoOverlap and the liveness "
-             "property AllConsumed. Real runs with 2-16 host producer threads (with jitter), a timer producer (delayed sends) and "
+             "property AllConsumed. Real runs with 2-16 host producer threads (with jitter; through the channel handle and through FsmExecutor::send_to_session), a timer producer (delayed sends) and "
              "a second session sending by session id are recorded: every producer logs its own send order, the session marks the "
              "first and the last content of each macrostep; TraceC13.tla accepts a run only if the consumed sequence is a merge "
              "of the producers' sequences (each event exactly once, per-sender order) and has the shape (dequeue, begin, end)*.",
@@ -163,7 +166,7 @@ CLAIMS = {
         technique="TraceC15.tla: routing function Dest(topology, sender, target form) and delivery predicate evaluated by TLC on recorded multi-session scenarios",
         text="Topologies of two siblings and of parent + invoked child + sibling, each started through start_fsm and through "
              "FsmExecutor::execute: every session sends through every applicable target form (#_internal, no target, "
-             "#_scxml_<id> via targetexpr, #_parent, #_<invokeid>) with every payload kind (none, params, namelist, content expr, "
+             "#_scxml_<id> via targetexpr, #_parent, #_<invokeid>; literal and targetexpr, immediate and delayed) with every payload kind (none, params, namelist, content expr, "
              "content text); every receiver marks all _event fields and replies to _event.origin / _event.origintype. "
              "TraceC15.tla computes the addressed queue (Dest) and accepts a scenario only if each send was received exactly "
              "once, only in that queue, with name, sendid and data unchanged, origintype of the SCXML processor, and the reply "
